@@ -215,7 +215,8 @@ def parse_items(src: str, lo: int = 0, hi: int | None = None, toks=None) -> list
                 if jj < n and ts[jj].text == "(":
                     j = match_close(ts, jj) + 1
                 continue
-            if t.kind == ID and t.text in ("unsafe", "async", "default"):
+            if t.kind == ID and t.text in ("unsafe", "async", "default", "open", "closed", "spec", "proof", "exec",
+                                           "broadcast", "uninterp", "axiom", "tracked", "ghost"):
                 j += 1; continue
             if t.kind == ID and t.text == "const":
                 # `const fn` vs `const NAME`
